@@ -34,6 +34,10 @@ func Glob(pattern, input string, opts ...Option) bool {
 			asterisk = true
 			i++
 		} else {
+			if j >= len(input) {
+				// input exhausted (e.g. empty input) with literal pattern left
+				break
+			}
 			match := pattern[i] == input[j]
 			if !asterisk && !match {
 				return false
